@@ -247,6 +247,23 @@ theorem model_stable (env : Env) (c : Model) (h : c.WF) (hu : ModelUpdated env c
   obtain ⟨j, h1, h2⟩ := model_roundtrip env c h hu
   simp [h1, h2]
 
+/-- **loadData_unknown_ignored**: a `data` element whose `entityUID` is not a uid of the loaded
+constituents changes nothing and cannot make the load fail, whatever else it contains (missing
+`wasCalculated`, ill-typed `value`, …): the load with the element is the load without it. -/
+theorem loadData_unknown_ignored (items : List Record) (ty : Nat → Option Ty) (pre post : List Json) (j : Json)
+    (u : Nat) (hu : (j.get "entityUID") >>= asNat = some u) (hn : ∀ r ∈ items, r.uid ≠ u) :
+    loadData items ty (.arr (pre ++ j :: post)) = loadData items ty (.arr (pre ++ post)) :=
+  loadData_unknown_ignored' items ty pre post j u hu hn
+
+/-- **loadData_texts_nonbase_ignored**: the `texts` of a `data` element for a constituent that is
+not a base set are not looked at (not even parsed): the load is the load of the document with
+that key removed (`dropKey`). -/
+theorem loadData_texts_nonbase_ignored (items : List Record) (ty : Nat → Option Ty) (pre post : List Json)
+    (j : Json) (u : Nat) (kind : CstType) (hu : (j.get "entityUID") >>= asNat = some u)
+    (hk : kindOf items u = some kind) (hb : isBaseSet kind = false) :
+    loadData items ty (.arr (pre ++ j :: post)) = loadData items ty (.arr (pre ++ dropKey "texts" j :: post)) :=
+  loadData_texts_nonbase_ignored' items ty pre post j u kind hu hk hb
+
 /-- the full-strength statement for models — no condition on the keys of text interpretations:
 false, see `model_roundtrip_statement_false` -/
 def model_roundtrip_statement : Prop :=
@@ -354,6 +371,24 @@ theorem exModel_wf : exModel.WF := by
 
 example : ∃ j, exModel.toJson = some j ∧ Model.fromJson (envOf exModel.items exModel.data) j = some exModel :=
   model_roundtrip _ _ exModel_wf (modelUpdated_satisfiable _ exModel_wf)
+
+/-- the `data` array of `exModel` with extra elements in front and a `texts` key added to the
+element of the term `D1` (uid 9), loaded -/
+def exOddData (extra : List Json) (texts : Json) : Option (List DataEntry) :=
+  (dataToJson exModel.items exModel.data).bind fun ds =>
+    loadData exModel.items (fun u => (exModel.data.find? (·.uid == u)).bind (·.typif))
+      (.arr (extra ++ ds.map fun j =>
+        match j, j.get "entityUID" with
+        | .obj kvs, some (.num 9) => .obj (kvs ++ [("texts", texts)])
+        | _, _ => j))
+
+/-- an element for the unknown uid 424242 (no `wasCalculated`, an ill-typed `value`) and `texts`
+(not even an array) on the term `D1`: the load succeeds with the same content -/
+example :
+    let d := exOddData [.obj [("entityUID", .num 424242), ("value", .str "?")]] (.str "no array")
+    d.map (·.map fun e => (e.uid, e.wasCalc)) = some (exModel.data.map fun e => (e.uid, e.wasCalc)) ∧
+    d.map (·.map fun e => (e.texts, e.stmt)) = some (exModel.data.map fun e => (e.texts, e.stmt)) := by
+  decide
 
 /-- the written `data` array of the example, evaluated -/
 example : (exModel.toJson.bind (·.get "data")).map Json.dump = some
